@@ -90,13 +90,31 @@ def prop_theorems(prop):
     return [f'{nsn}.{n}' if nsn else n for n in names]
 
 
-def grep_forbidden():
+def import_closure(roots):
+    """Lean files reachable from `roots` (paths relative to lean/) through `import NavisModel.*` lines."""
+    seen, todo = [], list(roots)
+    while todo:
+        f = todo.pop()
+        if f in seen or not (LEAN / f).exists():
+            continue
+        seen.append(f)
+        for m in re.finditer(r'^import\s+(NavisModel[\w\.]*)', (LEAN / f).read_text(), flags=re.M):
+            todo.append(m.group(1).replace('.', '/') + '.lean')
+    return seen
+
+
+def grep_forbidden(prop=None):
+    """Forbidden tokens in the files the property's theorems (and the driver) depend on."""
+    if prop is None:
+        files = [str(f.relative_to(LEAN)) for f in sorted((LEAN / 'NavisModel').rglob('*.lean'))] + ['Driver.lean']
+    else:
+        files = import_closure([f'NavisModel/Props/{prop}.lean', f'NavisModel/Drv/{prop}.lean'])
     hits = []
-    for f in sorted((LEAN / 'NavisModel').rglob('*.lean')) + [LEAN / 'Driver.lean']:
-        src = strip_comments(f.read_text())
+    for rel in files:
+        src = strip_comments((LEAN / rel).read_text())
         for i, l in enumerate(src.splitlines(), 1):
             if FORBIDDEN.search(l):
-                hits.append(f'{f.relative_to(LEAN)}:{i}: {l.strip()[:120]}')
+                hits.append(f'{rel}:{i}: {l.strip()[:120]}')
     return hits
 
 
@@ -119,7 +137,7 @@ def audit(prop):
             problems.append(f'{t}: not checked ({out[-300:]})')
         elif not set(res[t]) <= STD_AXIOMS:
             problems.append(f'{t}: non-standard axioms {res[t]}')
-    hits = grep_forbidden()
+    hits = grep_forbidden(prop)
     problems += [f'forbidden token: {h}' for h in hits]
     return {'theorems': thms, 'axioms': res, 'problems': problems, 'ok': rc == 0 and not problems and bool(thms)}
 
